@@ -665,6 +665,108 @@ def run_c16(tier, seed, replay=None):
 
 
 # ---------------------------------------------------------------------------
+# chunked coders (part of C07: posting details; part of C03: doc values)
+
+CC_MUTS = {"int": ["noZero", "rawLens", "noCloseOnChange", "resetKeepsCurr"], "content": ["metaKept"]}
+
+
+def chunkcoder_stage(zx, sc, tier, seed, pid, kind):
+    q = tier == "quick"
+    cfg = "ChunkCoderQ.cfg" if q else "ChunkCoder.cfg"
+    outp, st = tlc(sc, "ChunkCoder", cfg=cfg, workers=8, timeout=1800, outname="cc.out")
+    errs = tlc_errors(outp)
+    if errs:
+        raise Inconclusive("ChunkCoder model: " + "; ".join(errs[:3]))
+    n = 0
+    with open(sc.path("ccwalks.ndjson"), "w") as fh:
+        for tag, payload in printed(outp, ("WALK",)):
+            if '"kind":"%s"' % kind in payload:
+                fh.write(payload + "\n")
+                n += 1
+    os.remove(outp)
+    if n == 0:
+        raise Inconclusive("ChunkCoder model emitted no scripts")
+    refuted = []
+    for m in CC_MUTS[kind]:
+        o2, _ = tlc(sc, "ChunkCoder", cfg="ChunkCoderMut_%s.cfg" % m, workers=2, timeout=600, outname="ccm.out")
+        if not any("RoundTrip is violated" in e for e in tlc_errors(o2)):
+            raise Inconclusive("ChunkCoder model does not refute the wrong variant " + m)
+        refuted.append(m)
+    st3 = None
+    if not q and kind == "int":
+        o3, st3 = tlc(sc, "ChunkCoder", cfg="ChunkCoder3.cfg", workers=8, timeout=1800, outname="cc3.out")
+        if tlc_errors(o3):
+            raise Inconclusive("ChunkCoder model (three terms): " + "; ".join(tlc_errors(o3)[:3]))
+        os.remove(o3)
+    p = subprocess.run([zx, "chunkcoder", "-in", sc.path("ccwalks.ndjson"), "-out", sc.path("ccdiffs.ndjson")],
+                       stdout=subprocess.PIPE, stderr=subprocess.STDOUT, text=True, timeout=3600)
+    if p.returncode != 0:
+        raise Inconclusive("harness chunkcoder failed: " + p.stdout[-1500:])
+    rs = kv(p.stdout)
+    log("G: ChunkCoder(%s): %d states (RoundTrip holds; refuted: %s), %d %s-coder scripts;  R: %s" %
+        (cfg, st["distinct_states"], ", ".join(refuted), n, kind, p.stdout.strip()))
+    if rs.get("terms", 0) == 0:
+        raise Inconclusive("vacuous chunkcoder replay")
+    diffs = read_diffs(sc.path("ccdiffs.ndjson"))
+    paths, seen = [], set()
+    for d in diffs:
+        key = "chunkcoder/" + d["what"]
+        if key in seen or len(paths) >= 2:
+            continue
+        seen.add(key)
+        log("mismatch %s: %s" % (key, trunc(d, 700)))
+        paths.append(save_replay(pid, seed, 150 + len(paths), {"property": pid, "key": key, "family": "chunkcoder", "diff": d}))
+    with open(sc.path("ccwalks.ndjson")) as fh:
+        lines = fh.readlines()
+    cov = {"family": "chunkcoder", "kind": kind, "states": st["distinct_states"] + (st3["distinct_states"] if st3 else 0),
+           "transitions": st["states_generated"] + (st3["states_generated"] if st3 else 0),
+           "traces_validated_against_impl": n, "samples": [json.loads(lines[len(lines) // 2])],
+           "model": {"module": "ChunkCoder.tla", "cfg": cfg, "invariants": ["RoundTrip"], "refuted_variants": refuted, "wall_s": st["wall_s"],
+                     "three_terms_model_only": None if st3 is None else {"cfg": "ChunkCoder3.cfg", "distinct_states": st3["distinct_states"]}},
+           "scripts": n, "terms": rs["terms"],
+           "configurations": "every script of two uses of one reused int coder (chunk size changing between uses) / every single use of a fresh content coder (direct and progressive write), documents 0..MaxDoc, every chunk size; written by the real coder, read back by the real decoder through the verif hook"}
+    return {"cov": cov, "paths": paths}
+
+
+def chunkcoder_replay(pid, replay):
+    sc = Scratch()
+    try:
+        zx = build_harness(("verif",))
+        obj = json.load(open(replay))
+        with open(sc.path("w.ndjson"), "w") as fh:
+            fh.write(json.dumps(obj["diff"]["walk"]) + "\n")
+        p = subprocess.run([zx, "chunkcoder", "-in", sc.path("w.ndjson"), "-out", sc.path("ccdiffs.ndjson")],
+                           stdout=subprocess.PIPE, stderr=subprocess.STDOUT, text=True)
+        diffs = read_diffs(sc.path("ccdiffs.ndjson"))
+        if diffs:
+            log("replay: " + trunc(diffs[0], 800))
+            log("VIOLATION property=%s replay=%s" % (pid, replay))
+            return 1
+        log("replay: no violation of %s on the current tree" % pid)
+        return 0
+    finally:
+        sc.close()
+
+
+def merge_pre(a, b):
+    """two component stages of one check: the first one's coverage leads, the second is nested"""
+    cov = dict(a["cov"])
+    for k in ("states", "transitions", "traces_validated_against_impl"):
+        cov[k] = cov.get(k, 0) + b["cov"].get(k, 0)
+    cov["coders"] = b["cov"]
+    return {"cov": cov, "paths": a["paths"] + b["paths"]}
+
+
+def c03_pre(zx, sc, tier, seed, known):
+    return merge_pre(dvvisit_stage(zx, sc, tier, seed, known), chunkcoder_stage(zx, sc, tier, seed, "C03", "content"))
+
+
+def c07_pre(zx, sc, tier, seed, known):
+    return merge_pre(postiter_stage(zx, sc, tier, seed, known), chunkcoder_stage(zx, sc, tier, seed, "C07", "int"))
+
+
+
+# ---------------------------------------------------------------------------
 # C09 (b): frozen corpus
 
 def corpus_stage(zx, sc, tier, seed, known):
